@@ -11,7 +11,7 @@ from vlib.ref import parser as R
 def _desc(draw, d, indent=""):
     if d is None:
         return ""
-    if d == R.block_string_value("\n" + d + "\n") and '"""' not in d and not d.endswith("\\") and not d.endswith('"') and d != "" and draw(st.booleans()):
+    if d == R.block_string_value("\n" + d + "\n") and not any(c < " " and c not in "\t\n" for c in d) and '"""' not in d and not d.endswith("\\") and not d.endswith('"') and d != "" and draw(st.booleans()):
         return '%s"""\n%s%s\n%s"""\n' % (indent, indent, d.replace("\n", "\n" + indent), indent)
     return indent + json.dumps(d, ensure_ascii=False) + "\n"
 
